@@ -271,6 +271,66 @@ where
     outs.join(",")
 }
 
+/// A double-ended iterator stepped from the back (`nth_back`, `rev().skip`, `rev().step_by`, mixed with
+/// `nth`) must yield what the plain forward sequence implies. The adaptors are applied to the
+/// iterator itself (not to a `map` of it), so that its own `nth` / `nth_back` are the ones called.
+fn de_consistency<I, T, K>(it: I, key: impl Fn(T) -> K + Copy, what: &str, id: u32, f: &mut Vec<String>)
+where
+    I: DoubleEndedIterator<Item = T> + Clone,
+    K: PartialEq + Clone,
+{
+    let all: Vec<K> = it.clone().take(2000).map(key).collect();
+    if all.len() >= 2000 {
+        return;
+    }
+    let len = all.len();
+    for k in 0..(len + 1).min(4) {
+        let mut j = it.clone();
+        let got = j.nth_back(k).map(key);
+        let want = if k < len { Some(all[len - 1 - k].clone()) } else { None };
+        let rest: Vec<K> = j.map(key).collect();
+        let want_rest: Vec<K> = if k < len { all[..len - 1 - k].to_vec() } else { Vec::new() };
+        if got != want || rest != want_rest {
+            f.push(format!("{} of node {}: nth_back({}) does not take exactly the last {} of {} items", what, id, k, k + 1, len));
+            return;
+        }
+        let got: Vec<K> = it.clone().rev().skip(k).map(key).collect();
+        let mut want: Vec<K> = all[..len - k.min(len)].to_vec();
+        want.reverse();
+        if got != want {
+            f.push(format!("{} of node {}: rev().skip({}) is not the reversed sequence without its first {} items", what, id, k, k));
+            return;
+        }
+        let got: Vec<K> = it.clone().skip(k).map(key).collect();
+        if got != all[k.min(len)..].to_vec() {
+            f.push(format!("{} of node {}: skip({}) is not the sequence without its first {} items", what, id, k, k));
+            return;
+        }
+    }
+    let got: Vec<K> = it.clone().rev().step_by(2).map(key).collect();
+    let want: Vec<K> = all.iter().rev().step_by(2).cloned().collect();
+    if got != want {
+        f.push(format!("{} of node {}: rev().step_by(2) is wrong", what, id));
+    }
+    let got: Vec<K> = it.clone().step_by(2).map(key).collect();
+    let want: Vec<K> = all.iter().step_by(2).cloned().collect();
+    if got != want {
+        f.push(format!("{} of node {}: step_by(2) is wrong", what, id));
+    }
+    if len >= 3 {
+        let mut j = it.clone();
+        let a = j.nth(1).map(key);
+        let b = j.nth_back(0).map(key);
+        let rest: Vec<K> = j.map(key).collect();
+        if a != Some(all[1].clone()) || b != Some(all[len - 1].clone()) || rest != all[2..len - 1].to_vec() {
+            f.push(format!("{} of node {}: nth(1) then nth_back(0) do not leave the middle of the sequence", what, id));
+        }
+    }
+    if it.clone().last().map(key) != all.last().cloned() || it.clone().count() != len {
+        f.push(format!("{} of node {}: last()/count() disagree with the sequence", what, id));
+    }
+}
+
 /// Consistency of the navigation API with itself, for one node (no model needed): what one accessor
 /// says must be what the others imply.
 fn api_consistency(n: Node) -> Vec<String> {
@@ -335,6 +395,20 @@ fn api_consistency(n: Node) -> Vec<String> {
     }
     if seen != fwd.len() {
         f.push(format!("children() of node {}: alternating next()/next_back() yields {} items, there are {}", n.id().get(), seen, fwd.len()));
+    }
+    de_consistency(n.children(), |x: Node| x.id().get(), "children()", n.id().get(), &mut f);
+    if budget > 0 && want.len() < 600 {
+        de_consistency(n.descendants(), |x: Node| x.id().get(), "descendants()", n.id().get(), &mut f);
+    }
+    if n.is_element() {
+        de_consistency(
+            n.attributes(),
+            |a: roxmltree::Attribute| (a.namespace().map(|x| x.to_string()), a.name().to_string(), a.value().to_string()),
+            "attributes()",
+            n.id().get(),
+            &mut f,
+        );
+        de_consistency(n.namespaces(), |x: &roxmltree::Namespace| (x.name().map(|y| y.to_string()), x.uri().to_string()), "namespaces()", n.id().get(), &mut f);
     }
     // text() / tail() are functions of the adjacent nodes
     if n.is_element() {
